@@ -76,6 +76,7 @@ def run_ctr_stream(env, sh):
         env.check(K.read(p_out, n) == exp, 'output == data xor E(counter block for its position)')
         total += n
     K.check_memory_safe()
+    K.check_frame(('out', 'inout', 'pResult'))
     r2 = K.call('CTR_stop_operation', st)
     env.check(r2 == 0, 'stop_operation succeeds')
     K.check_memory_safe()
